@@ -17,7 +17,7 @@ pub const EXCLUDED_KNOWN: usize = 7;
 pub const CATALOGUE: &[Operand] = &[
     Operand { ty: "!", values: &[] },
     Operand { ty: "any", values: &["1", "\"s\"", "[1]", "()", "(1, 2)", "mut 1", "() -> int { return 1; }"] },
-    Operand { ty: "int", values: &["0", "1", "-3", "64", "9223372036854775807"] },
+    Operand { ty: "int", values: &["0", "1", "-1", "-3", "64", "9223372036854775807", "(-9223372036854775807 - 1)"] },
     Operand { ty: "float", values: &["0.0", "1.5", "-2.0"] },
     Operand { ty: "string", values: &["\"\"", "\"ab\"", "\"żółć\""] },
     Operand { ty: "bool", values: &["true", "false"] },
@@ -91,6 +91,9 @@ pub const UNARY: &[&str] = &[
     "(p, q, s) := X", "r := X == X", "r := X != 1", "r := [X] == [X]", "r := X = 1", "r := X += 1", "r := X = \"s\"",
     "r := X = X", "r := X $ 0 (acc: int, c: int) -> int { return acc + c; }",
     "r := X $ 0 (acc: any, c: any) -> any { return acc; }", "r := X @ (v: int) -> int { return v; }",
+    "r := X $ 0.5 (acc: int|float, c: int) -> int { return c; }", "r := X $ \"s\" (acc: any, c: any) -> int { return 1; }",
+    "r := X $ () (acc: any, c: any) -> [any] { return [c]; }", "m := match X { x: any => 0, }; r := x",
+    "m := if x: string = \"s\" { 0 } else { 1 }; r := x", "for x in [1]~ { x }; r := x", "{ x := \"inner\"; x }; r := x",
     "r := X @ (v: any) -> any { return v; }", "r := X ? (v: int) -> bool { return true; }",
     "r := X \\ (v: any) -> bool { return true; }", "r := X~ @ (v: any) -> any { return v; } $]", "r := X~$]",
     "r := (X~)().1", "r := (*X)[0]", "r := *X + 1", "r := X[0] = 1", "r := X[0] += 1", "r := X[0][0]", "r := X()()", "r := X().1",
@@ -113,6 +116,8 @@ pub const BINARY: &[&str] = &[
     "r := if Y { X } else { 0 }", "r := match X { Y => 1, => 2, }", "r := [X] + [Y]", "r := (X, Y) == (Y, X)",
     "r := struct{a := X, b := Y}", "r := X @ Y $]", "r := X ? Y $]", "r := (X \\ Y).0", "r := X~ @ Y $]", "r := X~ ? Y $]",
     "for e in X { Y }", "r := X[0] = Y", "r := X.a = Y", "r := *X + Y", "r := X = *Y", "r := X += *Y",
+    "m := match Y { x: any => 0, }; r := x", "m := if x: any = Y { 0 } else { 1 }; r := x", "for x in [Y]~ { x }; r := x",
+    "g := (x: any) -> any { return x; }; m := g(Y); r := x", "r := X $ Y (acc: any, c: any) -> int { return 1; }",
 ];
 
 pub fn operand(index: usize) -> &'static Operand {
